@@ -20,7 +20,8 @@ Inductive op :=
 | ODelete (c : Z)                (* Service.DeleteChannel(name) *)
 | OGet (c : Z)                   (* Service.GetChannel(name) != nil *)
 | OPush (c : Z)                  (* if ch := GetChannel(name); ch != nil { ch.PushMessage } *)
-| OFront (live ids : list Z).    (* ClientSessions.PushMsg{Ids: ids} on a front whose live ids are [live] *)
+| OFront (live ids : list Z)     (* ClientSessions.PushMsg{Ids: ids} on a front whose live ids are [live] *)
+| ODirect (f : Z) (ids : list Z). (* Service.PushMessageById / PushMessageByIds(front, ids): straight to the push implementation *)
 
 Inductive obs :=
 | BUnit
@@ -72,6 +73,7 @@ Definition step (s : st) (o : op) : st * obs :=
       | None => (s, BNoChan)
       end
   | OFront live ids => (s, BDeliver (front_push live ids))
+  | ODirect f ids => (s, BPush [(f, ids)])
   end.
 
 Fixpoint run_from (s : st) (ops : list op) : st * list obs :=
